@@ -237,6 +237,13 @@ def huge_items():
             if isinstance(v, F) and v.denominator == 1:
                 v = int(v)
             want = "I:%d" % v if isinstance(v, int) else "F:%d/%d" % (v.numerator, v.denominator)
+            n_ops = sum(text.count(c) for c in "+-*/%^")
+            if n_ops > 250:
+                # how long a chain the Python stack carries is not C01's business: the exact value, or the diagnosed refusal
+                items.append(([text], (lambda o, w=want: (o.get("status") == 0 and o.get("value") == w) or
+                                       (o.get("status") == 1 and not o.get("escaped") and "nested too deeply" in (o.get("err") or ""))),
+                              "exact arithmetic over a chain of %d operators (or the diagnosed refusal of its depth)" % n_ops))
+                continue
             items.append(([text], want, "exact arithmetic with results beyond 10000 digits" if len(want) > 10000 else "exact arithmetic over long chains and deep brackets"))
         return items
     finally:
